@@ -391,6 +391,29 @@ theorem Same_invalidateTags (s : St) (u r a : IdSet) : Same s (invalidateTags s 
   · split
     · split <;> exact ⟨rfl, rfl, rfl⟩
     · exact ⟨rfl, rfl, rfl⟩
+
+-- CHANGED (dropped): frame of `outputDropped` for the converter bookkeeping: queues, caches, converter list,
+-- converter flag, `next` and the served files are untouched; tags keep their converters and matches
+theorem Same_outputDropped (s : St) (choice : Option String) : Same s (outputDropped s choice) := by
+  unfold outputDropped
+  split
+  · simp only []
+    refine Same.trans (Same.trans (Same.trans (Same_tags s _ ?_) (Same_inherit _)) (Same_invDuring _ _))
+      (Same_startTagging _ _)
+    apply TagsLe_map
+    rintro ⟨n, t⟩
+    simp only []
+    split <;> exact ⟨rfl, rfl, rfl⟩
+  · exact Same.refl _
+
+-- CHANGED (dropped)
+theorem outputDropped_q (s : St) (choice : Option String) (c : String) :
+    qOf (outputDropped s choice) c = qOf s c := by
+  simp only [qOf, (Same_outputDropped s choice).1.toconv]
+-- CHANGED (dropped)
+theorem outputDropped_c (s : St) (choice : Option String) (c : String) :
+    cOf (outputDropped s choice) c = cOf s c := by
+  simp only [cOf, (Same_outputDropped s choice).1.cached]
 /-- one step of `release` -/
 def rel1 (s : St) (f : Nat) : St :=
   match nget s.used f with
@@ -711,12 +734,45 @@ def dc2 (s : St) (n c : String) (t : Tag) : St :=
   let t' := { t with convs := t.convs.filter (· != c) }
   let s1 := setTag s n t'
   let others := othersOf s1.tags n c
-  let only := diff t'.mat others
-  let s2 := { s1 with toconv := sins c (diff ((sget s1.toconv c).getD []) only) s1.toconv }
+  -- CHANGED (detach): only what the other tags with `c` still match stays queued
+  let s2 := { s1 with toconv := sins c (inter ((sget s1.toconv c).getD []) others) s1.toconv }
   if others.isEmpty then { s2 with cached := sins c [] s2.cached } else s2
 
-theorem detachConv_eq (s : St) (n c : String) :
-    detachConv s n c = match sget s.tags n with | none => s | some t => dc2 s n c t := rfl
+/-- CHANGED (dropped): `dc2` is the state after the converter was taken off the tag (queue trimmed, cache cleared
+    when no other tag has `c`); `dc3` adds the dropped-output step of the model -/
+def dc3 (s : St) (n c : String) (t : Tag) (choice : Option String) : St :=
+  let t' := { t with convs := t.convs.filter (· != c) }
+  let s1 := setTag s n t'
+  let others := othersOf s1.tags n c
+  let s2 := { s1 with toconv := sins c (inter ((sget s1.toconv c).getD []) others) s1.toconv }
+  if others.isEmpty then outputDropped { s2 with cached := sins c [] s2.cached } choice else s2
+
+-- CHANGED (dropped): `detachConv` takes the tagging choice; `dc3` instead of `dc2`
+theorem detachConv_eq (s : St) (n c : String) (choice : Option String) :
+    detachConv s n c choice = match sget s.tags n with | none => s | some t => dc3 s n c t choice := rfl
+
+-- CHANGED (dropped)
+theorem dc3_eq (s : St) (n c : String) (t : Tag) (choice : Option String) :
+    dc3 s n c t choice =
+      if (othersOf (sins n { t with convs := t.convs.filter (· != c) } s.tags) n c).isEmpty
+      then outputDropped (dc2 s n c t) choice else dc2 s n c t := by
+  unfold dc3 dc2
+  simp only [setTag]
+  split <;> rename_i h <;> simp only [h] <;> rfl
+
+-- CHANGED (dropped)
+theorem dc3_cases (s : St) (n c : String) (t : Tag) (choice : Option String) :
+    dc3 s n c t choice = dc2 s n c t ∨ dc3 s n c t choice = outputDropped (dc2 s n c t) choice := by
+  rw [dc3_eq]; split
+  · exact Or.inr rfl
+  · exact Or.inl rfl
+
+-- CHANGED (dropped)
+theorem Same_dc3 (s : St) (n c : String) (t : Tag) (choice : Option String) :
+    Same (dc2 s n c t) (dc3 s n c t choice) := by
+  rcases dc3_cases s n c t choice with e | e <;> rw [e]
+  · exact Same.refl _
+  · exact Same_outputDropped _ _
 
 theorem mem_othersOf (tags : List (String × Tag)) (n c : String) (id : Nat) :
     id ∈ othersOf tags n c ↔ ∃ x ∈ tags, x.1 ≠ n ∧ c ∈ x.2.convs ∧ id ∈ x.2.mat := by
@@ -745,9 +801,10 @@ theorem dc2_frame (s : St) (n c : String) (t : Tag) :
   simp only []
   split <;> exact ⟨rfl, rfl, rfl, rfl, rfl⟩
 
+-- CHANGED (detach): `inter … others` instead of `diff … (diff t.mat others)`
 theorem dc2_q (s : St) (n c : String) (t : Tag) (c' : String) :
     qOf (dc2 s n c t) c' = if c = c' then
-      diff (qOf s c) (diff t.mat (othersOf (sins n { t with convs := t.convs.filter (· != c) } s.tags) n c))
+      inter (qOf s c) (othersOf (sins n { t with convs := t.convs.filter (· != c) } s.tags) n c)
       else qOf s c' := by
   unfold dc2
   simp only []
@@ -769,12 +826,36 @@ theorem dc2_c (s : St) (n c : String) (t : Tag) (c' : String) :
     simp only [setTag] at h'
     simp only [cOf, setTag, h', and_false, if_false]
 
-theorem Good0_detachConv (s : St) (n c : String) (h : Good0 s) : Good0 (detachConv s n c) := by
-  rw [detachConv_eq]
-  split
-  · exact h
-  · next t ht =>
-    obtain ⟨hacc, hcwf, hcov⟩ := h
+-- CHANGED (dropped): the dropped-output step leaves queues and caches alone
+theorem dc3_q (s : St) (n c : String) (t : Tag) (choice : Option String) (c' : String) :
+    qOf (dc3 s n c t choice) c' = if c = c' then
+      inter (qOf s c) (othersOf (sins n { t with convs := t.convs.filter (· != c) } s.tags) n c)
+      else qOf s c' := by
+  rw [← dc2_q]
+  simp only [qOf, (Same_dc3 s n c t choice).1.toconv]
+
+-- CHANGED (dropped)
+theorem dc3_c (s : St) (n c : String) (t : Tag) (choice : Option String) (c' : String) :
+    cOf (dc3 s n c t choice) c' = if c = c' ∧
+        othersOf (sins n { t with convs := t.convs.filter (· != c) } s.tags) n c = [] then []
+      else cOf s c' := by
+  rw [← dc2_c]
+  simp only [cOf, (Same_dc3 s n c t choice).1.cached]
+
+-- CHANGED (dropped): the tag table after the dropped-output step is no longer `sins n … s.tags` (pending sets
+-- may have grown); what stays: converter list, `next`, served files, and every tag stems from a tag of
+-- `sins n … s.tags` with the same converters and matches or fewer
+theorem dc3_frame (s : St) (n c : String) (t : Tag) (choice : Option String) :
+    TagsLe (dc3 s n c t choice).tags (sins n { t with convs := t.convs.filter (· != c) } s.tags) ∧
+    (dc3 s n c t choice).convs = s.convs ∧ (dc3 s n c t choice).next = s.next ∧
+    (dc3 s n c t choice).idx = s.idx ∧ (dc3 s n c t choice).files = s.files := by
+  obtain ⟨f1, f2, f3, f4, f5⟩ := dc2_frame s n c t
+  have g := Same_dc3 s n c t choice
+  exact ⟨f1 ▸ g.1.tags, g.1.convs.trans f2, g.1.next.trans f3, g.2.1.trans f4, g.2.2.trans f5⟩
+
+theorem Good0_dc2 (s : St) (n c : String) (t : Tag) (ht : sget s.tags n = some t) (h : Good0 s) :
+    Good0 (dc2 s n c t) := by
+  · obtain ⟨hacc, hcwf, hcov⟩ := h
     obtain ⟨f1, f2, f3, f4, f5⟩ := dc2_frame s n c t
     have hle : TagsLe (dc2 s n c t).tags s.tags := by
       rw [f1]
@@ -800,10 +881,10 @@ theorem Good0_detachConv (s : St) (n c : String) (h : Good0 s) : Good0 (detachCo
           rw [sget_sins, if_neg (fun e => hmn e.symm)]; exact hu'
         have hne : ¬ othersOf (sins n { t with convs := t.convs.filter (· != c) } s.tags) n c = [] :=
           fun e => by simp [e] at hoth
-        simp only [hne, and_false, if_false, if_true, mem_diff]
+        simp only [hne, and_false, if_false, if_true, mem_inter]
         rcases hacc m u hu' c hc' id hid hlt with h | h
         · exact Or.inl h
-        · exact Or.inr ⟨h, fun hh => hh.2 hoth⟩
+        · exact Or.inr ⟨h, hoth⟩
       · simp only [hcc, false_and, if_false]
         rcases hle m u hu with h0 | ⟨n0, t0, ht0, hcs, hm⟩
         · simp [h0] at hc'
@@ -811,10 +892,20 @@ theorem Good0_detachConv (s : St) (n c : String) (h : Good0 s) : Good0 (detachCo
     · intro id hid
       rw [f4, f5]; exact hcov id (f3 ▸ hid)
 
-theorem detachConv_convs (s : St) (n c : String) : (detachConv s n c).convs = s.convs := by
+-- CHANGED (dropped): `detachConv` takes the tagging choice
+theorem Good0_detachConv (s : St) (n c : String) (choice : Option String) (h : Good0 s) :
+    Good0 (detachConv s n c choice) := by
+  rw [detachConv_eq]
+  split
+  · exact h
+  · next t ht => exact Good0_of_same (Same_dc3 s n c t choice) (Good0_dc2 s n c t ht h)
+
+-- CHANGED (dropped): `detachConv` takes the tagging choice
+theorem detachConv_convs (s : St) (n c : String) (choice : Option String) :
+    (detachConv s n c choice).convs = s.convs := by
   rw [detachConv_eq]; split
   · rfl
-  · exact (dc2_frame _ _ _ _).2.1
+  · exact (dc3_frame _ _ _ _ _).2.1
 theorem attachConv_convs (s : St) (n c : String) : (attachConv s n c).1.convs = s.convs := by
   unfold attachConv
   split
@@ -922,17 +1013,18 @@ theorem sins_sorted {α} (l : List (String × α)) (hw : (l.map (·.1)).Pairwise
             · exact Or.inl e
             · exact Or.inr (by simp [e])
 
+-- CHANGED (dropped): for every tagging choice
 theorem detach_stops' (s : St) (n c : String) (t : Tag) (hw : (s.tags.map (·.1)).Pairwise (· < ·))
     (ht : sget s.tags n = some t) (id : Nat) (hm : id ∈ t.mat)
-    (hothers : ∀ n2 t2, sget s.tags n2 = some t2 → n2 ≠ n → c ∈ t2.convs → id ∉ t2.mat) :
-    id ∉ qOf (detachConv s n c) c := by
+    (hothers : ∀ n2 t2, sget s.tags n2 = some t2 → n2 ≠ n → c ∈ t2.convs → id ∉ t2.mat)
+    (choice : Option String) :
+    id ∉ qOf (detachConv s n c choice) c := by
+  have _ := hm
   rw [detachConv_eq, ht]
-  simp only [dc2_q, if_true, mem_diff]
+  simp only [dc3_q, if_true, mem_inter]
   rintro ⟨_, hh⟩
-  apply hh
-  refine ⟨hm, ?_⟩
-  rw [mem_othersOf]
-  rintro ⟨⟨n2, t2⟩, hx, h1, h2, h3⟩
+  rw [mem_othersOf] at hh
+  obtain ⟨⟨n2, t2⟩, hx, h1, h2, h3⟩ := hh
   rcases (sins_sorted s.tags hw n _).2 _ hx with e | e
   · cases e; exact h1 rfl
   · exact hothers n2 t2 (mem_sget_of_sorted _ hw _ _ e) h1 h2 h3
@@ -1165,18 +1257,22 @@ theorem CWF_startConverter (s : St) (h : CWF s) : CWF (startConverter s) := by
 theorem Good_startConverter {b : Prop} (s : St) (h : Good b s) : Good b (startConverter s) :=
   Good.lift (CWF_startConverter s) (Good0_startConverter s) h
 
-theorem CWF_detachConv (s : St) (n c : String) (h : CWF s) : CWF (detachConv s n c) := by
+-- CHANGED (dropped): `detachConv` takes the tagging choice
+theorem CWF_detachConv (s : St) (n c : String) (choice : Option String) (h : CWF s) :
+    CWF (detachConv s n c choice) := by
   rw [detachConv_eq]
   split
   · exact h
   · next t ht =>
-    obtain ⟨f1, f2, _⟩ := dc2_frame s n c t
+    obtain ⟨f1, f2, _⟩ := dc3_frame s n c t choice
     refine CWF_of_le ?_ f2 h
-    rw [f1]
+    refine TagsLe.trans ?_ f1
     exact TagsLe_sins _ _ t _ ht (fun c' h => (List.mem_filter.1 h).1) (fun _ h => h)
 
-theorem Good_detachConv {b : Prop} (s : St) (n c : String) (h : Good b s) : Good b (detachConv s n c) :=
-  Good.lift (CWF_detachConv s n c) (Good0_detachConv s n c) h
+-- CHANGED (dropped): `detachConv` takes the tagging choice
+theorem Good_detachConv {b : Prop} (s : St) (n c : String) (choice : Option String) (h : Good b s) :
+    Good b (detachConv s n c choice) :=
+  Good.lift (CWF_detachConv s n c choice) (Good0_detachConv s n c choice) h
 
 theorem CWF_attachConv (s : St) (n c : String) (hc : c ∈ s.convs) (h : CWF s) :
     CWF (attachConv s n c).1 := by
@@ -1413,9 +1509,9 @@ theorem ev_delTag (s : St) (st : Started) (name : String) (h : Good b s) :
     · exact h
     · simp only []
       refine Good_of_same (Same_foldl _ _ (fun s r => Same_delRefBy s r name) _) ?_
-      refine Good_of_same (s := t.convs.foldl (fun s c => detachConv s name c) s)
+      refine Good_of_same (s := t.convs.foldl (fun s c => detachConv s name c st.tag) s)
         ⟨⟨rfl, rfl, rfl, rfl, rfl, TagsLe_sdel _ _⟩, rfl, rfl⟩ ?_
-      exact foldl_inv (Good b) _ _ (fun s c _ hs => Good_detachConv s name c hs) s h
+      exact foldl_inv (Good b) _ _ (fun s c _ hs => Good_detachConv s name c st.tag hs) s h
 theorem ev_addTag (s : St) (st : Started) (name color defn : String) (f : Facts) (h : Good b s) :
     Good b (step s (.addTag name color defn f) st).1 := by
   simp only [step]
@@ -1503,15 +1599,16 @@ theorem attach_fold (name : String) (l : List String) (s : St) (hl : ∀ c ∈ l
     · intro c hc; rw [attachConv_convs]; exact hl c (by simp [hc])
     · exact Good_attachConv s name a (hl a (by simp)) h
 
-theorem detach_fold (name : String) (l : List String) (s : St) (h : Good b s) :
-    Good b (l.foldl (fun s c => detachConv s name c) s) ∧
-    (l.foldl (fun s c => detachConv s name c) s).convs = s.convs := by
+-- CHANGED (dropped): `detachConv` takes the tagging choice
+theorem detach_fold (name : String) (choice : Option String) (l : List String) (s : St) (h : Good b s) :
+    Good b (l.foldl (fun s c => detachConv s name c choice) s) ∧
+    (l.foldl (fun s c => detachConv s name c choice) s).convs = s.convs := by
   induction l generalizing s with
   | nil => exact ⟨h, rfl⟩
   | cons a r ih =>
     simp only [List.foldl_cons]
-    have := ih (detachConv s name a) (Good_detachConv s name a h)
-    exact ⟨this.1, this.2.trans (detachConv_convs _ _ _)⟩
+    have := ih (detachConv s name a choice) (Good_detachConv s name a choice h)
+    exact ⟨this.1, this.2.trans (detachConv_convs _ _ _ _)⟩
 
 theorem ev_updConv (s : St) (st : Started) (name : String) (convs : List String) (h : Good b s) :
     Good b (step s (.updConv name convs) st).1 := by
@@ -1524,7 +1621,7 @@ theorem ev_updConv (s : St) (st : Started) (name : String) (convs : List String)
     · next hval =>
       simp only []
       apply Good_startConverter
-      obtain ⟨hd, hdc⟩ := detach_fold name (t.convs.filter (fun c => !convs.contains c)) s h
+      obtain ⟨hd, hdc⟩ := detach_fold name st.tag (t.convs.filter (fun c => !convs.contains c)) s h
       apply attach_fold
       · intro c hc
         rw [hdc]
@@ -1810,5 +1907,165 @@ theorem step_ac {b : Prop} (s : St) (e : Ev) (st : Started) (h : Good b s) (hi :
   | delTag name => exact (ev_delTag s st name h).ac
   | viewOpen k => exact (ev_viewOpen s st k h).ac
   | viewRelease k => exact ev_viewRelease s st k h.ac
+
+/-! ## tables that differ in the pending sets only -- CHANGED (dropped): new, for the dropped-output step -/
+
+/-- erase the pending set of an entry -/
+def eraseU (p : String × Tag) : String × Tag := (p.1, { p.2 with unc := [] })
+
+/-- same keys in the same order; corresponding entries differ in `unc` only -/
+def TagsU (tags tags' : List (String × Tag)) : Prop := tags'.map eraseU = tags.map eraseU
+
+theorem TagsU.refl (tags : List (String × Tag)) : TagsU tags tags := rfl
+theorem TagsU.trans {a b c : List (String × Tag)} (h1 : TagsU a b) (h2 : TagsU b c) : TagsU a c :=
+  Eq.trans h2 h1
+theorem TagsU.symm {a b : List (String × Tag)} (h : TagsU a b) : TagsU b a := Eq.symm h
+
+theorem TagsU.keys {a b : List (String × Tag)} (h : TagsU a b) : b.map (·.1) = a.map (·.1) := by
+  have := congrArg (List.map (·.1)) h
+  simpa [List.map_map, Function.comp_def, eraseU] using this
+
+/-- corresponding entries: same key, same everything except `unc` -/
+theorem TagsU.entry {a b : List (String × Tag)} (h : TagsU a b) (n : String) (t' : Tag)
+    (ht : sget b n = some t') :
+    ∃ t, sget a n = some t ∧ t' = { t with unc := t'.unc } := by
+  have e1 := sget_map eraseU (fun _ => rfl) a n
+  have e2 := sget_map eraseU (fun _ => rfl) b n
+  rw [h, e1, ht] at e2
+  cases ha : sget a n with
+  | none => rw [ha] at e2; cases e2
+  | some t =>
+    rw [ha] at e2
+    simp only [Option.map_some, Option.some.injEq, eraseU] at e2
+    refine ⟨t, rfl, ?_⟩
+    have : ({ t' with unc := [] } : Tag) = { t with unc := [] } := e2.symm
+    cases t; cases t'
+    simp only [Tag.mk.injEq] at this ⊢
+    simp_all
+
+theorem TagsU_map (tags : List (String × Tag)) (f : String × Tag → String × Tag)
+    (hf : ∀ x, eraseU (f x) = eraseU x) : TagsU tags (tags.map f) := by
+  unfold TagsU
+  rw [List.map_map]
+  exact List.map_congr_left (fun x _ => hf x)
+
+/-- replacing an entry of a sorted table by one that differs in `unc` only -/
+theorem TagsU_sins (l : List (String × Tag)) (hw : (l.map (·.1)).Pairwise (· < ·)) (n : String) (t t' : Tag)
+    (ht : sget l n = some t) (he : eraseU (n, t') = eraseU (n, t)) : TagsU l (sins n t' l) := by
+  induction l with
+  | nil => simp [sget_nil] at ht
+  | cons a r ih =>
+    obtain ⟨ka, va⟩ := a
+    simp only [List.map_cons, List.pairwise_cons] at hw
+    simp only [sins]
+    split
+    · next hlt =>
+      exfalso
+      have hm := sget_mem _ _ _ ht
+      rcases List.mem_cons.1 hm with e | e
+      · cases e; exact absurd hlt (String.lt_irrefl _)
+      · have := hw.1 n (List.mem_map.2 ⟨(n, t), e, rfl⟩)
+        exact absurd (String.lt_trans hlt this) (String.lt_irrefl _)
+    · split
+      · next _ e =>
+        subst e
+        rw [sget_cons, if_pos rfl] at ht
+        cases ht
+        unfold TagsU
+        simp only [List.map_cons, he]
+      · next _ hne =>
+        rw [sget_cons, if_neg (fun e => hne e.symm)] at ht
+        unfold TagsU
+        simp only [List.map_cons]
+        rw [ih hw.2 ht]
+
+theorem inheritOne_eu (all : Nat) (tags : List (String × Tag)) (n : String) (t : Tag) :
+    eraseU (n, inheritOne all tags t) = eraseU (n, t) := by
+  unfold inheritOne
+  split
+  · rfl
+  · split <;> rfl
+
+theorem inheritPass_u (all : Nat) (l tags : List (String × Tag)) (res : List String)
+    (hw : (tags.map (·.1)).Pairwise (· < ·)) :
+    TagsU tags (l.foldl (fun (acc : List (String × Tag) × List String) (nt : String × Tag) =>
+      let (tags, resolved) := acc
+      let n := nt.1
+      if resolved.contains n then acc
+      else match sget tags n with
+        | none => acc
+        | some t =>
+          if t.refs.all (fun r => resolved.contains r) then
+            (sins n (inheritOne all tags t) tags, n :: resolved)
+          else acc) (tags, res)).1 := by
+  induction l generalizing tags res with
+  | nil => exact TagsU.refl _
+  | cons a r ih =>
+    simp only [List.foldl_cons]
+    split
+    · exact ih _ _ hw
+    · split
+      · exact ih _ _ hw
+      · next t ht =>
+        split
+        · have h1 := TagsU_sins tags hw a.1 t _ ht (inheritOne_eu all tags a.1 t)
+          refine TagsU.trans h1 (ih _ _ ?_)
+          exact (sins_sorted tags hw _ _).1
+        · exact ih _ _ hw
+
+theorem inheritLoop_u (all fuel : Nat) (tags : List (String × Tag)) (res : List String)
+    (hw : (tags.map (·.1)).Pairwise (· < ·)) : TagsU tags (inheritLoop all fuel tags res).1 := by
+  induction fuel generalizing tags res with
+  | zero => exact TagsU.refl _
+  | succ k ih =>
+    unfold inheritLoop
+    split
+    · exact TagsU.refl _
+    · simp only []
+      have h1 := inheritPass_u all tags tags res hw
+      refine TagsU.trans h1 (ih _ _ ?_)
+      have := h1.keys
+      rw [this]; exact hw
+
+theorem inherit_tagsU (s : St) (hw : (s.tags.map (·.1)).Pairwise (· < ·)) : TagsU s.tags (inherit s).tags := by
+  unfold inherit
+  exact inheritLoop_u _ _ _ _ hw
+
+theorem od_startTagging_tags (s : St) (ch : Option String) : (startTagging s ch).tags = s.tags := by
+  unfold startTagging
+  repeat (first | rfl | split)
+
+/-- the dropped-output step changes pending sets only -/
+theorem outputDropped_tagsU (s : St) (choice : Option String) (hw : (s.tags.map (·.1)).Pairwise (· < ·)) :
+    TagsU s.tags (outputDropped s choice).tags := by
+  unfold outputDropped
+  split
+  · simp only []
+    rw [od_startTagging_tags]
+    have h0 : ∀ (x : St) ids, (invalidatedDuringTaggingJob x ids).tags = x.tags := by
+      intro x ids; unfold invalidatedDuringTaggingJob; split <;> rfl
+    rw [h0]
+    have h1 : TagsU s.tags (s.tags.map fun (x : String × Tag) =>
+        match x with
+        | (n, t) => if (t.mfeat ||| t.sfeat) &&& fData != 0 then (n, { t with unc := rangeSet s.all }) else (n, t)) := by
+      apply TagsU_map
+      rintro ⟨n, t⟩
+      simp only []
+      split <;> rfl
+    refine TagsU.trans h1 (inherit_tagsU _ ?_)
+    show List.Pairwise _ (List.map _ (List.map _ s.tags))
+    rw [h1.keys]; exact hw
+  · exact TagsU.refl _
+
+/-- the table after a detach: `sins n … s.tags` up to pending sets -/
+theorem dc3_tagsU (s : St) (n c : String) (t : Tag) (choice : Option String)
+    (hw : (s.tags.map (·.1)).Pairwise (· < ·)) :
+    TagsU (sins n { t with convs := t.convs.filter (· != c) } s.tags) (dc3 s n c t choice).tags := by
+  have f1 := (dc2_frame s n c t).1
+  rcases dc3_cases s n c t choice with e | e <;> rw [e]
+  · rw [f1]; exact TagsU.refl _
+  · rw [← f1]
+    apply outputDropped_tagsU
+    rw [f1]; exact (sins_sorted s.tags hw _ _).1
 
 end Pk.Proofs.MgrConv
